@@ -202,7 +202,10 @@ def pipeline_cases(report, rng, tier):
     from aionostr.event import Event
     try:
         for i in range(40 if tier == "quick" else 600):
-            viol = rng.choice(["none", "none", "size", "old", "future", "kind", "blacklist", "hellthread", "sig", "two"])
+            viol = rng.choice(["none", "none", "size", "old", "future", "kind", "blacklist", "hellthread", "sig", "two",
+                               # validly signed events with a field of the wrong JSON type that violate a policy — or on which a
+                               # policy cannot even be evaluated: never admitted
+                               "old-as-string", "content-null-oversize", "kind-as-string"])
             key = bad if viol == "blacklist" else sk
             kw = dict(pubkey=key.public_key.hex(), content="ok %d" % i, kind=1, created_at=NOW - rng.randrange(100), tags=[])
             if viol in ("size", "two"):
@@ -215,9 +218,18 @@ def pipeline_cases(report, rng, tier):
                 kw["kind"] = 4
             if viol == "hellthread":
                 kw["tags"] = [["p", "00" * 32]] * 4
-            ev = Event(**kw)
-            ev.sign(key.hex())
-            d = ev.to_json_object()
+            if viol == "old-as-string":
+                kw["created_at"] = str(NOW - 500000)
+            if viol == "content-null-oversize":
+                kw["content"] = None
+            if viol == "kind-as-string":
+                kw["kind"] = "4"
+            try:
+                ev = Event(**kw)
+                ev.sign(key.hex())
+                d = ev.to_json_object()
+            except Exception:
+                continue
             if viol == "sig":
                 d["sig"] = "00" * 64
             for st in stores:
